@@ -359,3 +359,69 @@ fn c13_k_month_days() {
 pub fn mk_term(year: isize, index: isize, cursory: f64) -> SolarTerm {
   SolarTerm { parent: LoopTyme::from_index(crate::tyme::sixtycycle::verif_k::empties(24), index), year, cursory_julian_day: cursory }
 }
+
+// ---- C14: week arithmetic on the real bodies. The weekday of the first of the month (a name-table object built through
+// the f64 day number: proved in c07_k_week) is replaced by a stub answering an ARBITRARY weekday and recording which date
+// was asked; SolarDay::next / subtract and SolarWeek::from_ym are replaced by recording stubs.
+static mut WK_W: isize = -7701;
+static mut WK_ASKED: (isize, usize, usize) = (-7702, 7703, 7704);
+static mut WK_N: isize = -7705;
+static mut WK_FROM: (isize, usize, usize) = (-7706, 7707, 7708);
+static mut WK_NEW: (isize, usize, usize, usize) = (-7709, 7710, 7711, 7712);
+static mut WK_SUB: isize = -7713;
+fn wk_day_get_week(d: &SolarDay) -> Week { unsafe { WK_ASKED = (d.get_year(), d.get_month(), d.get_day()); Week::from_index(WK_W) } }
+fn wk_day_next(d: &SolarDay, n: isize) -> SolarDay { unsafe { WK_N = n; WK_FROM = (d.get_year(), d.get_month(), d.get_day()); } *d }
+fn wk_day_subtract(_a: &SolarDay, b: SolarDay) -> isize { let v: isize = kani::any(); kani::assume(v >= 0 && v <= 30); unsafe { WK_SUB = v; WK_FROM = (b.get_year(), b.get_month(), b.get_day()); } v }
+fn wk_week_from_ym(y: isize, m: usize, i: usize, s: usize) -> SolarWeek {
+  unsafe { WK_NEW = (y, m, i, s); }
+  SolarWeek { parent: AbstractTyme::new(), month: SolarMonth::from_ym(y, m), index: 0, start: Week::from_index(0) }
+}
+
+#[kani::proof]
+#[kani::unwind(9)]
+#[kani::stub(alloc::fmt::format, stub_format)]
+#[kani::stub(SolarDay::get_week, wk_day_get_week)]
+fn c14_k_solar_week_count() {
+  let y: isize = kani::any(); let m: usize = kani::any(); let start: usize = kani::any(); let w: isize = kani::any();
+  kani::assume(y >= 1 && y <= 9999 && m >= 1 && m <= 12 && start <= 6 && w >= 0 && w <= 6);
+  unsafe { WK_W = w; }
+  let c = SolarMonth::from_ym(y, m).get_week_count(start);
+  let off = spec::emod(w as i64 - start as i64, 7);
+  assert!(c as i64 == (off + spec::month_len(y as i64, m as i64) + 6) / 7, "week count == ceil((offset of the first day in its week + month length) / 7)");
+  assert!(unsafe { WK_ASKED } == (y, m, 1), "the weekday asked for is that of the first of the month");
+  kani::cover!(y == 1582 && m == 10 && c == 4, "solar_week_count reachable (the 21-day month can have 4 weeks)");
+}
+
+#[kani::proof]
+#[kani::unwind(9)]
+#[kani::stub(alloc::fmt::format, stub_format)]
+#[kani::stub(SolarDay::get_week, wk_day_get_week)]
+#[kani::stub(<SolarDay as Tyme>::next, wk_day_next)]
+fn c14_k_solar_week_first_day() {
+  let y: isize = kani::any(); let m: usize = kani::any(); let start: isize = kani::any(); let w: isize = kani::any(); let i: usize = kani::any();
+  kani::assume(y >= 1 && y <= 9999 && m >= 1 && m <= 12 && start >= 0 && start <= 6 && w >= 0 && w <= 6 && i <= 5);
+  unsafe { WK_W = w; }
+  let wk = SolarWeek { parent: AbstractTyme::new(), month: SolarMonth::from_ym(y, m), index: i, start: Week::from_index(start) };
+  let _ = wk.get_first_day();
+  assert!(unsafe { WK_N } as i64 == 7 * i as i64 - spec::emod((w - start) as i64, 7), "first day of week i == first of the month + 7i - (offset of the first of the month in its week)");
+  assert!(unsafe { WK_ASKED } == (y, m, 1) && unsafe { WK_FROM } == (y, m, 1), "counted from the first of the month");
+  kani::cover!(i == 5 && w == 0 && start == 6, "solar_week_first_day reachable");
+}
+
+#[kani::proof]
+#[kani::unwind(9)]
+#[kani::stub(alloc::fmt::format, stub_format)]
+#[kani::stub(SolarDay::get_week, wk_day_get_week)]
+#[kani::stub(SolarDay::subtract, wk_day_subtract)]
+#[kani::stub(SolarWeek::from_ym, wk_week_from_ym)]
+fn c14_k_day_to_week() {
+  let d = any_valid_day(); let start: usize = kani::any(); let w: isize = kani::any();
+  kani::assume(start <= 6 && w >= 0 && w <= 6);
+  unsafe { WK_W = w; }
+  let _ = d.get_solar_week(start);
+  let pos = unsafe { WK_SUB } as i64; // days since the first of the month (SolarDay::subtract: C01)
+  let off = spec::emod(w as i64 - start as i64, 7);
+  assert!(unsafe { WK_NEW } == (d.get_year(), d.get_month(), ((pos + off) / 7) as usize, start), "a date lies in week floor((days since the first + offset of the first in its week) / 7) of its month");
+  assert!(unsafe { WK_ASKED } == (d.get_year(), d.get_month(), 1) && unsafe { WK_FROM } == (d.get_year(), d.get_month(), 1), "both counted from the first of the month");
+  kani::cover!(pos == 30 && off == 6, "day_to_week reachable (sixth week)");
+}
